@@ -214,4 +214,21 @@ func init() {
 		Assumptions: []string{"store failures are modelled at the store.Store seam: the k-th call returns an error (sticky: so does every later call of that transaction; a failing Commit rolls the inner transaction back)"},
 		Uses: []core.Use{{E: eFault, Quick: 10, Thorough: 45}, {E: eInvalid, Quick: 40, Thorough: 600}},
 	})
+
+	eConc := &core.Engine{Name: "conc", Run: RunConc}
+	core.Register(&core.PropSpec{
+		ID: "C07", Level: "exploration",
+		Rule: "2-8 goroutines x 6-14 operations on one handle (insert batches with unique tags, point update/replace/delete, bulk update/delete by group, index create/drop, FindAll snapshots, Count, FindById, ListIndexes; one *query.Query and one Criteria shared and extended by all goroutines) with scheduling perturbed at every store call (Gosched / 1-50 us sleeps, seeded); every call is recorded with call/return stamps from one atomic counter and the history is checked by porcupine against a sequential model of the collection (a conflict-rejected operation is accepted only as a no-op; 60 s budget, Unknown = inconclusive); every snapshot read is checked online for torn batches and partly applied bulk updates; the state-rebuild audit runs at quiescence; a quarter of the cases run again in the -race build and every race report whose stacks contain clover frames is a violation. evaluations = recorded operations checked; a cell is an overlapping operation-kind pair actually observed per backend class.",
+		Assumptions: []string{"interleavings are sampled, not enumerated: the evidence lists which operation pairs were seen overlapping", "races wholly inside bbolt/badger are logged as external and do not decide"},
+		Uses: []core.Use{{E: eConc, Quick: 240, Thorough: 6000, Race: true}},
+	})
+
+	eCrash := &core.Engine{Name: "crash", Run: RunCrash}
+	eReopen := &core.Engine{Name: "reopen-prefixes", Run: RunReopen}
+	core.Register(&core.PropSpec{
+		ID: "C05", Level: "fault_enumeration",
+		Rule: "a seeded history of 10-20 write operations (inserts, point and bulk updates/deletes with and without sort, index and collection create/drop, ImportCollection, CreateCollectionByQuery, failing batches) is replayed by a CHILD PROCESS that writes a begin mark before and an acknowledgement after every operation; the child is killed (SIGKILL) either by its own store monitor at store call k of operation j - k drawn from 1..calls(j)+1, i.e. every point between two store calls including just before Commit and just after it returned - or by the parent a seeded 0-3000 us after the begin mark on the unmonitored clover.Open path; after every kill the parent reopens the directory and runs the full state-rebuild audit (catalog, documents, Count, every index, raw keys) against the acknowledged state, then against acknowledged + in-flight; anything else is a violation; the child is restarted on the rest of the history (up to 14 / 30 kills per history). A second engine closes and reopens after EVERY prefix of a history in-process and audits. evaluations = reopen+audit rounds; a cell is <in-flight operation kind|phase before-first-write/between-writes/before-commit/after-commit-before-ack/timed|adopted state|backend> or <reopen|operation kind|backend>.",
+		Assumptions: []string{"a killed process keeps the page cache: power loss and torn sectors are not produced by this check", "badger runs with its default SyncWrites=false"},
+		Uses: []core.Use{{E: eCrash, Quick: 14, Thorough: 400}, {E: eReopen, Quick: 24, Thorough: 500}},
+	})
 }
